@@ -92,7 +92,20 @@ def r17_2(ctx):
         ctx.fail("BSplineSignal.get_der", detail="shape", expected="return BSplineSignal(...)", found=found, fi=f)
     g = P.own_method("SplineMethod", "add_variables")
     ds = [st for st in walk_no_nested(g.node) if isinstance(st, ast.Assign) and is_call_to(st.value if not isinstance(st.value, ast.BinOp) else st.value.left, "bspline_derivative")]
-    ok = len(ds) == 1 and Norm(None).poly(ds[0].value) == Norm(None).poly(ast.parse("bspline_derivative(e,self.xi,d-i)/self.T", mode="eval").body)
+    ok = len(ds) == 1 and isinstance(ds[0].targets[0], ast.Name)
+    if ok:
+        tn = ds[0].targets[0].id
+        pv = Norm(None).poly(ds[0].value)
+        calls = [a for a in pv.atoms() if a.startswith("bspline_derivative(%s,self.xi," % tn)]
+        ok = len(calls) == 1 and pv == Poly.atom(calls[0]) * Poly.atom("self.T", -1)
+        if ok:
+            # degree argument: (L-1) - level of the chain
+            scg = ctx.scope(g)
+            cn = [c for c in ast.walk(ds[0].value) if isinstance(c, ast.Call) and ast.unparse(c.func) == "bspline_derivative"][0]
+            loops = scg.enclosing_loops(ds[0])
+            lv = ast.unparse(loops[-1][0]) if loops else None
+            Lv = loops[-2][0].elts[0].id if len(loops) >= 2 and isinstance(loops[-2][0], ast.Tuple) else None
+            ok = Lv is not None and Norm(scg).poly(cn.args[2]) == Poly.atom(Lv) - 1 - Poly.atom(lv)
     ctx.check(ok, "SplineMethod: each link of a chain is the B-spline derivative divided by T", detail="chain derivative in normalised time", expected="e = bspline_derivative(e, self.xi, d-i)/self.T", found="; ".join(ast.unparse(x) for x in ds), fi=g)
     r = c.methods.get("register")
     ok = r is not None and any(is_call_to(x, "get_der", "signal") for x in walk_no_nested(r.node)) and any(is_call_to(x, "register", "BSplineSignal") for x in walk_no_nested(r.node))
